@@ -106,6 +106,14 @@ def run(spec, tier, prop, mg, max_paths=400, max_seconds=120.0, timeout_ms=10000
         exec(spec["body"], env)
         out = env["out"]
         out_terms = terms_of(out.data)
+        if spec.get("ref_body"):
+            # reference forward written against NumPy on the raw symbolic arrays: independent of the path the library took
+            # (needed where the library branches on an equality: on that path its own forward pins the variable)
+            renv = {"np": np}
+            renv.update({n: np.array(a, dtype=object) for n, a in arrs.items()})
+            renv.update({n: env[n] for n, _ in carr_spec})
+            exec(spec["ref_body"], renv)
+            out_terms = terms_of(np.asarray(renv["out"], dtype=object))
         if seed_mode == "sym":
             g = symarr("g", out.shape)
             seed_terms = terms_of(g)
@@ -140,7 +148,7 @@ def run(spec, tier, prop, mg, max_paths=400, max_seconds=120.0, timeout_ms=10000
                 # e.g. maximum(x, x): every element is a tie, the documented convention sends zero
                 L = tm.const(0)
                 res["convention_paths"] = res.get("convention_paths", 0) + 1
-            elif p.boundary:
+            elif p.boundary and not spec.get("smooth_at_ties"):
                 if spec.get("convention") == "zero_at_tie" and claim_boundary:
                     # documented convention: a tied output element sends nothing to any operand.
                     # Expected gradient = derivative of  Σ_{j not tied} g_j·out_j
